@@ -13,7 +13,7 @@ pub struct MiriResult {
     pub skipped: Option<String>,
 }
 
-fn miri_cmd(pkg: &str, bin: &str, seed_lo: u64, seed_hi: u64, rate: &str, workload: u64) -> Command {
+fn miri_cmd(pkg: &str, bin: &str, seed_lo: u64, seed_hi: u64, rate: &str, workload: u64, extra: &[String]) -> Command {
     let sim = crate::verif_root().join("sim");
     let mut c = Command::new("cargo");
     c.current_dir(&sim)
@@ -28,6 +28,7 @@ fn miri_cmd(pkg: &str, bin: &str, seed_lo: u64, seed_hi: u64, rate: &str, worklo
         .arg(bin)
         .arg("--")
         .arg(workload.to_string())
+        .args(extra)
         .env(
             "MIRIFLAGS",
             format!("-Zmiri-many-seeds={}..{} -Zmiri-preemption-rate={} -Zmiri-disable-isolation", seed_lo, seed_hi, rate),
@@ -38,10 +39,15 @@ fn miri_cmd(pkg: &str, bin: &str, seed_lo: u64, seed_hi: u64, rate: &str, worklo
 }
 
 pub fn run(pkg: &str, bin: &str, seeds: u64, rates: &[&str], workload: u64) -> MiriResult {
+    run_with(pkg, bin, seeds, rates, workload, &[])
+}
+
+/// `extra`: further command-line arguments of the scenario binary (after the workload seed).
+pub fn run_with(pkg: &str, bin: &str, seeds: u64, rates: &[&str], workload: u64, extra: &[String]) -> MiriResult {
     let t0 = crate::real_monotonic_s();
     let mut total = 0;
     for rate in rates {
-        let out = miri_cmd(pkg, bin, 0, seeds, rate, workload).output();
+        let out = miri_cmd(pkg, bin, 0, seeds, rate, workload, extra).output();
         let out = match out {
             Ok(o) => o,
             Err(e) => {
@@ -58,7 +64,7 @@ pub fn run(pkg: &str, bin: &str, seeds: u64, rates: &[&str], workload: u64) -> M
         }
         // find the failing seed: many-seeds prints "Trying seed: N" or similar; bisect by single seeds
         for s in 0..seeds {
-            let o = miri_cmd(pkg, bin, s, s + 1, rate, workload).output();
+            let o = miri_cmd(pkg, bin, s, s + 1, rate, workload, extra).output();
             if let Ok(o) = o {
                 if !o.status.success() {
                     let t = format!("{}{}", String::from_utf8_lossy(&o.stdout), String::from_utf8_lossy(&o.stderr));
@@ -80,7 +86,8 @@ pub fn replay(property: &str, pkg: &str, bin: &str, v: &Value, path: &str) -> i3
     let seed = v["miri_seed"].as_u64().unwrap_or(0);
     let rate = v["preemption_rate"].as_str().unwrap_or("0.1").to_string();
     let workload = v["workload_seed"].as_u64().unwrap_or(0);
-    match miri_cmd(pkg, bin, seed, seed + 1, &rate, workload).output() {
+    let extra: Vec<String> = v["extra_args"].as_array().map(|a| a.iter().filter_map(|x| x.as_str().map(|s| s.to_string())).collect()).unwrap_or_default();
+    match miri_cmd(pkg, bin, seed, seed + 1, &rate, workload, &extra).output() {
         Ok(o) if o.status.success() => {
             println!("no violation on this tree");
             crate::EXIT_OK
